@@ -62,7 +62,12 @@ func (queue *FileQueue) Start() {
 	queue.start()
 	queue.SyncFileDB.Open()
 
+	// The background writer is running already and stores the asset indexes of a replayed block through Put. Put empties
+	// the tmp file whenever nothing is pending, which may be the case in the middle of the scan: the rest of the file would
+	// then be replayed from a deleted file and lost by a second crash. Keep Put out until the replay is complete
+	queue.putLock.Lock()
 	err := queue.checkFile()
+	queue.putLock.Unlock()
 	if err != nil {
 		panic("start queue.check tmp file err: " + err.Error())
 	}
